@@ -650,7 +650,9 @@ class _SetOperation(Selectable, Term):  # type:ignore[misc]
             quote_char=self.base_query.QUERY_CLS.SQL_CONTEXT.quote_char,
             parameterizer=ctx.parameterizer,
         )
-        set_ctx = ctx.copy(subquery=self.base_query.wrap_set_operation_queries)
+        # the flags of the embedding position (print an alias, qualify columns) concern the set operation as a whole,
+        # not its operands or its own ORDER BY / LIMIT
+        set_ctx = ctx.copy(subquery=self.base_query.wrap_set_operation_queries, with_alias=False)
         base_querystring = self.base_query.get_sql(set_ctx)
 
         querystring = base_querystring
@@ -669,11 +671,12 @@ class _SetOperation(Selectable, Term):  # type:ignore[misc]
                 type=set_operation.value, query_string=set_operation_querystring
             )
 
+        tail_ctx = ctx.copy(with_namespace=False, with_alias=False)
         if self._orderbys:
-            querystring += self._orderby_sql(ctx)
+            querystring += self._orderby_sql(tail_ctx)
 
-        querystring += self._limit_sql(ctx)
-        querystring += self._offset_sql(ctx)
+        querystring += self._limit_sql(tail_ctx)
+        querystring += self._offset_sql(tail_ctx)
 
         if ctx.subquery:
             querystring = "({query})".format(query=querystring)
